@@ -270,6 +270,7 @@ fn e1_plan(prop: P, tier: &Tier) -> Vec<PlanItem> {
             }
             v.push(item(Box::new(F9 { wide: !q }), hint_mask_axes(), if q { 1 } else { 4 }));
             v.push(item(Box::new(F10), f10_axes(q), 1));
+            v.push(item(Box::new(F14 { nt: 3 }), two_axes(), 1));
             if q {
                 v.push(item(
                     Box::new(Grid::f1_prime().with_fixed(vec![(1, 2, 3), (2, 3, 3)])),
@@ -373,7 +374,9 @@ fn e1_plan(prop: P, tier: &Tier) -> Vec<PlanItem> {
                 item(f3_filtered(2, &|d| !matches!(d, Deco::AddUnion(Src::Root, _) | Deco::Soft(_))), two_axes(), 1),
             ];
             v.push(item(Box::new(F10), f10_axes(q), 1));
+            v.push(item(Box::new(F14 { nt: 3 }), two_axes(), 1));
             if !q {
+                v.push(item(Box::new(F14 { nt: 4 }), named(vec![("sync", sync_cfg())]), 1));
                 v.push(item(f3_filtered(3, &|d| !matches!(d, Deco::AddUnion(Src::Root, _) | Deco::Soft(_))), named(vec![("sync", sync_cfg())]), 1));
             }
             if q {
